@@ -164,10 +164,17 @@ func run(c tcase) string {
 	if len(toks) < nfixed {
 		return fmt.Sprintf("only %d tokens", len(toks)) + show()
 	}
-	if toks[0].Key != "time" {
+	if c.direct && c.instant.IsZero() && toks[0].Key != "time" {
+		// a record without a time: slog's handler contract lets a handler leave the time out then; the line must still
+		// be well formed and carry everything else, in order (a dummy token keeps the positions below)
+		toks = append([]lm.Token{{Key: "time"}}, toks...)
+	} else if toks[0].Key != "time" {
 		return fmt.Sprintf("first token key %q, want time", toks[0].Key) + show()
 	}
 	ts, perr := time.Parse(time.RFC3339, toks[0].Val)
+	if c.direct && c.instant.IsZero() && toks[0].Val == "" {
+		ts, perr = c.instant, nil
+	}
 	if perr != nil {
 		return "time token does not parse as RFC3339: " + perr.Error() + show()
 	}
@@ -214,6 +221,9 @@ func genCase(t *rapid.T) tcase {
 	}
 	if c.direct {
 		c.instant = lm.GenInstant().Draw(t, "instant")
+		if rapid.IntRange(0, 9).Draw(t, "zeroTime") == 0 {
+			c.instant = time.Time{} // a record that carries no time at all
+		}
 	}
 	c.prime = lm.GenPrime(genOpts).Draw(t, "prime")
 	if len(c.chain) > 0 {
